@@ -54,6 +54,19 @@ let handle = function
     if spec_C13_ok c (kind_of k) (guards g) (coq_of_str (unhex n)) (parse_outcome o) then "ok" else "bad"
   | ["fixed"; k] -> "ok\t" ^ plain_list (List.map str_of_coq (model_fixed c (kind_of k)))
   | ["allnames"; k] -> "ok\t" ^ plain_list (List.map str_of_coq (model_all_names c (kind_of k)))
+  (* EXTENSION: option registry of configfile.c *)
+  | ["optall"; g] ->
+    let cfg = cfg_of (guards g) in
+    let rec upto = function [] -> [] | (n, pg) :: t -> if str_of_coq n = str_of_coq options.o_sentinel then [] else (n, pg) :: upto t in
+    "ok\t" ^ plain_list (List.map (fun (n, (p, gt)) -> str_of_coq n ^ "=" ^ str_of_coq p ^ "/" ^ str_of_coq gt) (upto (opt_select cfg options.o_rows)))
+  | ["optid"; n; g] ->
+    (match opt_find options (cfg_of (guards g)) (coq_of_str (unhex n)) with
+     | OFound (i, p, gt) -> "ok\t" ^ string_of_int (int_of_nat i) ^ "\t" ^ str_of_coq p ^ "\t" ^ str_of_coq gt
+     | ONotSupported -> "ok\t-1\t~\t~"
+     | OOutOfBounds -> "oob")
+  | ["optspec"; n; p; gt] ->
+    let n = coq_of_str (unhex n) in
+    if str_of_coq (parser_of n) = p && str_of_coq (getter_of n) = gt then "ok" else "bad"
   (* genericregistry.c on explicit arrays *)
   | ["gid"; arr; n] ->
     (match get_id c.rc_sentinel (List.map coq_of_str (parse_hex_list arr)) (coq_of_str (unhex n)) with
